@@ -2,6 +2,11 @@ import Hgxv.Proofs.C01Cor
 import Hgxv.Proofs.C01Query
 import Hgxv.Proofs.C01Shrink
 import Hgxv.Proofs.C01Batch
+import Hgxv.Proofs.C01X
+import Hgxv.Proofs.C01Sub
+import Hgxv.Proofs.C01SubOrders
+import Hgxv.Proofs.C01SubEdges
+import Hgxv.Proofs.C01SubOrdersDrop
 /-! # C01 - property theorems
 
 Model and vocabulary: `Hgxv/Model/C01.lean` (concrete `Store`/`step`/`answer`, abstract `Spec`); helper lemmas:
@@ -387,3 +392,268 @@ example :
       [.addEdge [1, 2] (some big) none, .addEdge [2, 3, 4] (some 2) none, .addEdge [2, 1] (some 12) none] = apply s b ∧
     answer (apply s b).1 (.weightsDict {}) = .ews [([7, 8], 4), ([1, 2], 4 * (2 ^ 53 + 4)), ([2, 3, 4], 2)] ∧
     answer (apply s b).1 .isWeighted = .bool true := by decide
+
+/-! ## Extension round: the whole object and the extraction routines
+
+Vocabulary: `Hgxv/Model/C01X.lean`.  `Full` = the tables of `Store` + `_incidences_metadata` + `_empty_edges`;
+`FCmd` = constructor | `copy` | every `Op`, `set_incidence_metadata`, `add_empty_edge` on a slot | extraction
+(`subhypergraph`, `subhypergraph_by_orders`, `get_edges(subhypergraph=True)`) from slot `i` into slot `j`;
+`FQuery` = every `Query` + `get_incidence_metadata` + `get_all_incidences_metadata`.  The extraction routines are modelled
+as the code runs them (calls of the public mutators on a fresh object, every `raise` on the way = `rej`).
+Hypothesis `c.WF` as before (raw hyperedges handed to `add_edge(s)` are duplicate-free); nothing is assumed about the
+arguments of the new calls. -/
+
+/-- a history over all four kinds of commands: an incidence entry under an unsorted spelling for a node that is none, a
+rejected `set_incidence_metadata` (absent hyperedge), a rejected second `add_empty_edge`, an induced sub-hypergraph, a
+rejected one (absent node), an extraction by orders without the isolated nodes, a removal after which the incidence entry
+is stale, a `get_edges(size=2, subhypergraph=True, keep_isolated_nodes=True)`, and `clear()` on a copy -/
+def C01.demoX : List FCmd :=
+  [.new 0 true [], .on 0 (.base (.addEdge [3, 1, 2] (some 8) (some [(2, 5)]))), .on 0 (.base (.addEdge [2, 1] (some 4) none)),
+   .on 0 (.base (.addEdge [4, 3] none none)), .on 0 (.base (.addNode 9 (some [(1, 1)]))),
+   .on 0 (.setIncMeta [2, 1] 7 [(2, 3)]), .on 0 (.setIncMeta [5, 1] 7 [(2, 3)]),
+   .on 0 (.addEmptyEdge 3 []), .on 0 (.addEmptyEdge 3 [(0, 0)]),
+   .extract 0 1 (.sub [1, 2, 9]), .extract 0 2 (.sub [1, 2, 8]), .extract 0 2 (.orders (some [1, 2]) none false),
+   .copy 0 3, .on 3 (.base .clear), .on 0 (.base (.removeEdge [1, 2])), .extract 0 3 (.edges { size := some 2 } true)]
+
+theorem C01.demoX_wf : ∀ c ∈ C01.demoX, c.WF := by
+  intro c hc
+  simp only [C01.demoX, List.mem_cons, List.not_mem_nil, or_false] at hc
+  rcases hc with h | h | h | h | h | h | h | h | h | h | h | h | h | h | h | h <;> subst h <;>
+    simp [FCmd.WF, FOp.WF, Op.WF]
+
+/-- **Refinement of the whole object, for every history and every query.**  After any finite sequence of constructor
+calls, copies, the 18 mutating calls, `set_incidence_metadata`, `add_empty_edge` and extractions (`subhypergraph`,
+`subhypergraph_by_orders`, `get_edges(subhypergraph=True)`, accepted or rejected), every query - the 32 of `C01_refines`,
+`get_incidence_metadata`, `get_all_incidences_metadata` - on every slot is answered by the tables exactly as by the abstract
+hypergraph (node list + map from node sets to (weight, metadata) + the two side tables) that went through the same calls. -/
+theorem C01_full_refines (k : Nat) (cs : List FCmd) (hwf : ∀ c ∈ cs, c.WF) (i : Nat) (q : FQuery) :
+    fquery (frun (finit k) cs) i q = FSpec.query (FSpec.run (FSpec.init k) cs) i q :=
+  fquery_sim _ _ (frun_sim cs _ _ hwf (finit_sim k)) i q
+
+/-- state form: the abstract state is the abstraction of the concrete one slot by slot, every slot (also every extracted
+object) satisfies the representation invariant, and the next command - in particular the next extraction - is accepted by
+the tables iff it is accepted by the abstract hypergraph -/
+theorem C01_full_refines_state (k : Nat) (cs : List FCmd) (hwf : ∀ c ∈ cs, c.WF) (c : FCmd) (hc : c.WF) :
+    FSpec.run (FSpec.init k) cs = (frun (finit k) cs).map fabs ∧
+    (∀ s ∈ frun (finit k) cs, Inv s.base) ∧
+    (fstep (frun (finit k) cs) c).2 = (FSpec.step (FSpec.run (FSpec.init k) cs) c).2 := by
+  have h := frun_sim cs _ _ hwf (finit_sim k)
+  exact ⟨h.1, h.2, (fstep_sim _ _ c hc h).2⟩
+
+/-- non-vacuity: the demo history does what its comment says (slot 1: induced by {1,2,9}; slot 2: hyperedges of order
+1 and 2 with their nodes only; slot 3: after the removal of {1,2} only {3,4} has size 2, all five nodes kept; slot 0 keeps
+the stale incidence entry, and `get_incidence_metadata` raises for it) -/
+example : (∀ c ∈ C01.demoX, c.WF) ∧
+    fquery (frun (finit 4) C01.demoX) 1 (.base (.weightsDict {})) = .base (.ews [([1, 2], 4)]) ∧
+    fquery (frun (finit 4) C01.demoX) 1 (.base .nodesMeta) = .base (.nmetas [(1, []), (2, []), (9, [(1, 1)])]) ∧
+    fquery (frun (finit 4) C01.demoX) 2 (.base (.weightsDict {})) = .base (.ews [([1, 2], 4), ([3, 4], 4), ([1, 2, 3], 8)]) ∧
+    fquery (frun (finit 4) C01.demoX) 2 (.base .nodes) = .base (.nats [1, 2, 3, 4]) ∧
+    fquery (frun (finit 4) C01.demoX) 3 (.base (.weightsDict {})) = .base (.ews [([3, 4], 4)]) ∧
+    fquery (frun (finit 4) C01.demoX) 3 (.base .nodes) = .base (.nats [1, 2, 3, 4, 9]) ∧
+    fquery (frun (finit 4) C01.demoX) 0 .allIncMeta = .imetas [(([2, 1], 7), [(2, 3)])] ∧
+    fquery (frun (finit 4) C01.demoX) 0 (.incMeta [2, 1] 7) = .base .rej ∧
+    fquery (frun (finit 4) C01.demoX) 3 .allIncMeta = .imetas [] :=
+  ⟨C01.demoX_wf, by decide, by decide, by decide, by decide, by decide, by decide, by decide, by decide, by decide⟩
+
+/-- **A rejected call leaves the whole state unchanged** - also a rejected extraction (absent node in `subhypergraph`,
+`orders` and `sizes` both or neither given, `order` and `size` both given), a rejected `set_incidence_metadata` (absent
+hyperedge) and a rejected `add_empty_edge` (name taken): no slot, no table changes. -/
+theorem C01_full_rejected_noop (k : Nat) (cs : List FCmd) (hwf : ∀ c ∈ cs, c.WF) (c : FCmd)
+    (h : (fstep (frun (finit k) cs) c).2 = .rej) : (fstep (frun (finit k) cs) c).1 = frun (finit k) cs :=
+  fstep_rej _ c (frun_sim cs _ _ hwf (finit_sim k)).2 h
+
+/-- non-vacuity: commands 6, 8 and 10 of the demo history are rejected -/
+example :
+    (fstep (frun (finit 4) (C01.demoX.take 6)) (.on 0 (.setIncMeta [5, 1] 7 [(2, 3)]))).2 = .rej ∧
+    (fstep (frun (finit 4) (C01.demoX.take 8)) (.on 0 (.addEmptyEdge 3 [(0, 0)]))).2 = .rej ∧
+    (fstep (frun (finit 4) (C01.demoX.take 10)) (.extract 0 2 (.sub [1, 2, 8]))).2 = .rej ∧
+    (fstep (frun (finit 4) (C01.demoX.take 10)) (.extract 0 2 (.orders none none true))).2 = .rej ∧
+    (fstep (frun (finit 4) (C01.demoX.take 10)) (.extract 0 2 (.edges { order := some 1, size := some 2 } false))).2 = .rej := by
+  decide
+
+/-- **The whole-object machine extends the machine of `C01_refines`**: on a history of base commands its node / hyperedge
+tables are exactly the states of `C01.run`, and the base queries are answered alike.  (So everything proved about
+`C01.run` - `C01_inv`, `C01_incident_once`, `C01_reinsert`, ... - holds for the tables of the whole object.) -/
+theorem C01_full_extends (k : Nat) (cs : List Cmd) :
+    (frun (finit k) (cs.map Cmd.lift)).map (·.base) = run (init k) cs ∧
+    ∀ i q, fquery (frun (finit k) (cs.map Cmd.lift)) i (.base q) = .base (query (run (init k) cs) i q) := by
+  have h1 : (frun (finit k) (cs.map Cmd.lift)).map (·.base) = run (init k) cs := by
+    rw [frun_lift, finit_base]
+  refine ⟨h1, ?_⟩
+  intro i q
+  rw [← h1]
+  simp only [fquery, query, List.getElem?_map]
+  cases (frun (finit k) (cs.map Cmd.lift))[i]? <;> rfl
+
+example : (frun (finit 2) (C01.demo.map Cmd.lift)).map (·.base) = run (init 2) C01.demo := (C01_full_extends 2 C01.demo).1
+
+/-- **One extraction call** on the tables of any reachable object is matched by the same routine on its abstraction: same
+outcome, the new object's abstraction is the abstract result, and the new object (new ids from 0) satisfies `Inv`. -/
+theorem C01_extraction_refines (s : Store) (hr : C01.Reachable s) (x : Extract) :
+    abs (extract s x).1 = (Spec.extract (abs s) x).1 ∧ (extract s x).2 = (Spec.extract (abs s) x).2 ∧
+      Inv (extract s x).1 :=
+  sim_extract s x hr.inv
+
+/-- **What `subhypergraph(nodes)` is** (the abstract routine is written as the code runs: `add_nodes`, then
+`set_node_metadata(get_node_metadata)` per listed node, then `add_edge(get_weight, get_edge_metadata)` per hyperedge inside
+the list).  For every abstract hypergraph `a` of every history: the call is accepted iff every listed node is a node
+(repetitions are fine); then the new hypergraph has the source's weighted flag, the constructor's hypergraph metadata,
+exactly the listed nodes with the source's metadata, and exactly the source's hyperedges all of whose nodes are listed - in
+the source's order, each with the source's weight and metadata. -/
+theorem C01_subhypergraph (k : Nat) (cs : List FCmd) (hwf : ∀ c ∈ cs, c.WF) (a : FSpec)
+    (ha : a ∈ FSpec.run (FSpec.init k) cs) (ns : List Node) :
+    ((Spec.subhypergraph a.base ns).2 = .ok ↔ ∀ n ∈ ns, (get? a.base.nodes n).isSome) ∧
+    ((∀ n ∈ ns, (get? a.base.nodes n).isSome) →
+      (Spec.subhypergraph a.base ns).1.weighted = a.base.weighted ∧
+      (Spec.subhypergraph a.base ns).1.hmeta = initHMeta a.base.weighted [] ∧
+      (∀ m, get? (Spec.subhypergraph a.base ns).1.nodes m = if m ∈ ns then get? a.base.nodes m else none) ∧
+      keys (Spec.subhypergraph a.base ns).1.edges = (keys a.base.edges).filter (insideOf ns) ∧
+      ∀ x, get? (Spec.subhypergraph a.base ns).1.edges x = if insideOf ns x then get? a.base.edges x else none) := by
+  have h := frun_sim cs _ _ hwf (finit_sim k)
+  rw [h.1] at ha
+  obtain ⟨s, hs, rfl⟩ := List.mem_map.mp ha
+  exact spec_subhypergraph (abs s.base) (abs_swf (h.2 s hs)) ns
+
+/-- non-vacuity: slot 0 of the demo history after command 9, nodes [1, 2, 9] (accepted; the result is slot 1 above) and
+[1, 2, 8] (8 is no node) -/
+example : ∃ a ∈ FSpec.run (FSpec.init 4) (C01.demoX.take 9),
+    (∀ n ∈ [1, 2, 9], (get? a.base.nodes n).isSome) ∧ ¬ (∀ n ∈ [1, 2, 8], (get? a.base.nodes n).isSome) ∧
+    keys (Spec.subhypergraph a.base [1, 2, 9]).1.edges = [[1, 2]] ∧ keys a.base.edges = [[1, 2, 3], [1, 2], [3, 4]] :=
+  ⟨_, List.mem_of_getElem? (show (FSpec.run (FSpec.init 4) (C01.demoX.take 9))[0]? = some _ from rfl),
+    by decide, by decide, by decide, by decide⟩
+
+/-- **What `subhypergraph_by_orders(orders | sizes)` is** (default `keep_nodes=True`; the abstract routine is written as the
+code runs: `add_nodes(get_nodes())`, `set_node_metadata(get_node_metadata)` per node, then for every size of
+`dict.fromkeys(sizes)` - orders are sizes minus one - `add_edge(get_weight, get_edge_metadata)` per hyperedge of
+`get_edges(size=size)`).  For every abstract hypergraph `a` of every history: the call raises iff `orders` and `sizes` are
+both given or both missing (whatever `keep_nodes`); otherwise it is accepted, and the new hypergraph has the source's
+weighted flag, the constructor's hypergraph metadata, all the source's nodes with their metadata, and exactly the source's
+hyperedges whose size is listed, each ONCE (also when a size is listed twice: no weight is added twice) with the source's
+weight and metadata, listed size by size in order of first mention and within a size in the source's order. -/
+theorem C01_subhypergraph_by_orders (k : Nat) (cs : List FCmd) (hwf : ∀ c ∈ cs, c.WF) (a : FSpec)
+    (ha : a ∈ FSpec.run (FSpec.init k) cs) (os ks : Option (List Int)) :
+    (sizesArg os ks = none → ∀ keep, (Spec.subOrders a.base os ks keep).2 = .rej) ∧
+    (∀ sz, sizesArg os ks = some sz →
+      (Spec.subOrders a.base os ks true).2 = .ok ∧
+      (Spec.subOrders a.base os ks true).1.weighted = a.base.weighted ∧
+      (Spec.subOrders a.base os ks true).1.hmeta = initHMeta a.base.weighted [] ∧
+      (∀ m, get? (Spec.subOrders a.base os ks true).1.nodes m = get? a.base.nodes m) ∧
+      keys (Spec.subOrders a.base os ks true).1.edges = edgesOfSizes sz (keys a.base.edges) ∧
+      ∀ x, get? (Spec.subOrders a.base os ks true).1.edges x =
+        if (x.length : Int) ∈ sz then get? a.base.edges x else none) := by
+  have h := frun_sim cs _ _ hwf (finit_sim k)
+  rw [h.1] at ha
+  obtain ⟨s, hs, rfl⟩ := List.mem_map.mp ha
+  exact spec_subOrders_keep (abs s.base) (abs_swf (h.2 s hs)) os ks
+
+/-- non-vacuity: slot 0 of the demo history after command 9 (hyperedges {1,2,3}:8, {1,2}:4, {3,4}:4, node 9 isolated),
+orders [1, 2, 1] = sizes [2, 3, 2]: both hyperedges of size 2 first, then {1,2,3}; no weight doubled -/
+example : ∃ a ∈ FSpec.run (FSpec.init 4) (C01.demoX.take 9),
+    sizesArg (some [1, 2, 1]) none = some [2, 3, 2] ∧ sizesArg (some [1]) (some [2]) = none ∧ sizesArg none none = none ∧
+    keys (Spec.subOrders a.base (some [1, 2, 1]) none true).1.edges = [[1, 2], [3, 4], [1, 2, 3]] ∧
+    get? (Spec.subOrders a.base (some [1, 2, 1]) none true).1.edges [1, 2] = some (4, []) ∧
+    keys (Spec.subOrders a.base (some [1, 2, 1]) none true).1.nodes = [1, 2, 3, 4, 9] :=
+  ⟨_, List.mem_of_getElem? (show (FSpec.run (FSpec.init 4) (C01.demoX.take 9))[0]? = some _ from rfl),
+    by decide, by decide, by decide, by decide, by decide, by decide⟩
+
+/-- **`subhypergraph_by_orders(.., keep_nodes=False)`**: accepted whenever exactly one of `orders` / `sizes` is given; the
+hyperedges are those of `C01_subhypergraph_by_orders` (each once, source order within a size, the source's weight and
+metadata), and the nodes are exactly the nodes of the selected hyperedges, with the source's metadata - isolated nodes and
+nodes of other hyperedges are gone. -/
+theorem C01_subhypergraph_by_orders_drop_nodes (k : Nat) (cs : List FCmd) (hwf : ∀ c ∈ cs, c.WF) (a : FSpec)
+    (ha : a ∈ FSpec.run (FSpec.init k) cs) (os ks : Option (List Int)) (sz : List Int) (hsz : sizesArg os ks = some sz) :
+    (Spec.subOrders a.base os ks false).2 = .ok ∧
+    (Spec.subOrders a.base os ks false).1.weighted = a.base.weighted ∧
+    (Spec.subOrders a.base os ks false).1.hmeta = initHMeta a.base.weighted [] ∧
+    (∀ m, get? (Spec.subOrders a.base os ks false).1.nodes m =
+      if m ∈ (edgesOfSizes sz (keys a.base.edges)).flatten then get? a.base.nodes m else none) ∧
+    keys (Spec.subOrders a.base os ks false).1.edges = edgesOfSizes sz (keys a.base.edges) ∧
+    ∀ x, get? (Spec.subOrders a.base os ks false).1.edges x =
+      if (x.length : Int) ∈ sz then get? a.base.edges x else none := by
+  have h := frun_sim cs _ _ hwf (finit_sim k)
+  rw [h.1] at ha
+  obtain ⟨s, hs, rfl⟩ := List.mem_map.mp ha
+  exact spec_subOrders_drop (abs s.base) (abs_swf (h.2 s hs)) os ks sz hsz
+
+/-- non-vacuity: slot 0 of the demo history after command 9, `sizes=[2]`, `keep_nodes=False`: {1,2} and {3,4} with the
+nodes 1..4; node 9 (isolated) is gone -/
+example : ∃ a ∈ FSpec.run (FSpec.init 4) (C01.demoX.take 9),
+    sizesArg none (some [2]) = some [2] ∧
+    keys (Spec.subOrders a.base none (some [2]) false).1.edges = [[1, 2], [3, 4]] ∧
+    keys (Spec.subOrders a.base none (some [2]) false).1.nodes = [1, 2, 3, 4] ∧ 9 ∈ keys a.base.nodes :=
+  ⟨_, List.mem_of_getElem? (show (FSpec.run (FSpec.init 4) (C01.demoX.take 9))[0]? = some _ from rfl),
+    by decide, by decide, by decide, by decide⟩
+
+/-- **What `get_edges(order, size, up_to, subhypergraph=True, keep_isolated_nodes)` is** (the abstract routine is written as
+the code runs: optionally `add_nodes(get_nodes())`, then ONE `add_edges(edges, [get_weight(e) for e in edges])` resp.
+`add_edges(edges)`, then `set_node_metadata(get_node_metadata)` for every node the new object has, then
+`set_edge_metadata(get_edge_metadata)` per selected hyperedge).  For every abstract hypergraph `a` of every history: the call
+raises iff `order` and `size` are both given; otherwise it is accepted, and the new hypergraph has the source's weighted flag,
+the constructor's hypergraph metadata, exactly the source's hyperedges that pass the filter - in the source's order, each with the
+source's weight and metadata - and as nodes, with the source's metadata: ALL nodes of the source with `keep_isolated_nodes`,
+exactly the nodes of the selected hyperedges without. -/
+theorem C01_get_edges_subhypergraph (k : Nat) (cs : List FCmd) (hwf : ∀ c ∈ cs, c.WF) (a : FSpec)
+    (ha : a ∈ FSpec.run (FSpec.init k) cs) (f : Filter) (iso : Bool) :
+    (f.resolve = none → (Spec.subEdges a.base f iso).2 = .rej) ∧
+    (∀ o, f.resolve = some o →
+      (Spec.subEdges a.base f iso).2 = .ok ∧
+      (Spec.subEdges a.base f iso).1.weighted = a.base.weighted ∧
+      (Spec.subEdges a.base f iso).1.hmeta = initHMeta a.base.weighted [] ∧
+      (∀ m, get? (Spec.subEdges a.base f iso).1.nodes m =
+        if iso = true ∨ m ∈ ((keys a.base.edges).filter (keepEdge o f.upTo)).flatten then get? a.base.nodes m else none) ∧
+      keys (Spec.subEdges a.base f iso).1.edges = (keys a.base.edges).filter (keepEdge o f.upTo) ∧
+      ∀ x, get? (Spec.subEdges a.base f iso).1.edges x = if keepEdge o f.upTo x then get? a.base.edges x else none) := by
+  have h := frun_sim cs _ _ hwf (finit_sim k)
+  rw [h.1] at ha
+  obtain ⟨s, hs, rfl⟩ := List.mem_map.mp ha
+  exact spec_subEdges (abs s.base) (abs_swf (h.2 s hs)) f iso
+
+/-- non-vacuity: slot 0 of the demo history after command 9 (hyperedges {1,2,3}:8 with metadata, {1,2}:4, {3,4}:4, node 9
+isolated with metadata), `size=3` without and `order=1, up_to` with the isolated nodes; `order=1, size=2` raises -/
+example : ∃ a ∈ FSpec.run (FSpec.init 4) (C01.demoX.take 9),
+    ({ size := some 3 } : Filter).resolve = some (some 2) ∧ ({ order := some 1, size := some 2 } : Filter).resolve = none ∧
+    (Spec.subEdges a.base { size := some 3 } false).1.edges = [([1, 2, 3], (8, [(2, 5)]))] ∧
+    keys (Spec.subEdges a.base { size := some 3 } false).1.nodes = [1, 2, 3] ∧
+    keys (Spec.subEdges a.base { order := some 1, upTo := true } true).1.edges = [[1, 2], [3, 4]] ∧
+    (Spec.subEdges a.base { order := some 1, upTo := true } true).1.nodes = [(1, []), (2, []), (3, []), (4, []), (9, [(1, 1)])] :=
+  ⟨_, List.mem_of_getElem? (show (FSpec.run (FSpec.init 4) (C01.demoX.take 9))[0]? = some _ from rfl),
+    by decide, by decide, by decide, by decide, by decide, by decide⟩
+
+/-- **The two side tables** (`_incidences_metadata`, `_empty_edges`), for ANY object `s`.
+(1) `set_incidence_metadata(edge, node, md)` on a present hyperedge is accepted and changes nothing but the entry
+`(edge as written, node)`, which `get_incidence_metadata` then returns under the same spelling; (2) on an absent hyperedge
+setter and getter raise and nothing changes; (3) no call of the 18 other than `clear()` touches the two tables - in
+particular an entry survives `remove_edge` / `remove_node` of its hyperedge (while it is gone the getter raises; once it
+is re-inserted the entry is served again); (4) `clear()` empties both; (5) `add_empty_edge(name)` is accepted iff the
+name is not registered, and then it is. -/
+theorem C01_side_tables (s : Full) (raw : List Nat) (n : Node) (md : Meta) (name : Nat) (op : Op) :
+    ((get? s.base.edgeList (canon raw)).isSome →
+      (s.apply (.setIncMeta raw n md)).2 = .ok ∧
+      (s.apply (.setIncMeta raw n md)).1.base = s.base ∧ (s.apply (.setIncMeta raw n md)).1.empties = s.empties ∧
+      (s.apply (.setIncMeta raw n md)).1.answer (.incMeta raw n) = .base (.dict md) ∧
+      ∀ k, k ≠ (raw, n) → get? (s.apply (.setIncMeta raw n md)).1.inc k = get? s.inc k) ∧
+    ((get? s.base.edgeList (canon raw)).isSome = false →
+      s.apply (.setIncMeta raw n md) = (s, .rej) ∧ s.answer (.incMeta raw n) = .base .rej) ∧
+    (isClear op = false → (s.apply (.base op)).1.inc = s.inc ∧ (s.apply (.base op)).1.empties = s.empties) ∧
+    ((s.apply (.base .clear)).1.inc = [] ∧ (s.apply (.base .clear)).1.empties = []) ∧
+    ((s.apply (.addEmptyEdge name md)).2 = .ok ↔ (get? s.empties name).isSome = false) ∧
+    ((s.apply (.addEmptyEdge name md)).2 = .ok →
+      (get? (s.apply (.addEmptyEdge name md)).1.empties name).isSome ∧
+      ((s.apply (.addEmptyEdge name md)).1.apply (.addEmptyEdge name md)).2 = .rej) := by
+  refine ⟨?_, ?_, ?_, ?_, ?_, ?_⟩
+  · intro hp
+    simp only [Full.apply, regSetInc, hp, if_true, Full.answer, regGetInc, get?_set_self]
+    refine ⟨trivial, trivial, trivial, trivial, ?_⟩
+    intro k hk
+    exact get?_set_ne _ _ _ _ (fun h => hk h.symm)
+  · intro hp
+    simp [Full.apply, regSetInc, hp, Full.answer, regGetInc]
+  · intro hc
+    simp [Full.apply, hc]
+  · exact ⟨rfl, rfl⟩
+  · simp only [Full.apply, regAddEmpty]
+    cases (get? s.empties name).isSome <;> simp
+  · simp only [Full.apply, regAddEmpty]
+    by_cases hp : (get? s.empties name).isSome = true
+    · simp [hp]
+    · simp [hp]
